@@ -23,10 +23,14 @@ def main():
     except core.HarnessError as e:
         print('HARNESS-ERROR %s: %s' % (a.pid, e))
         return 2
-    except Exception:
+    except Exception as e:
+        # the implementation (or the harness driving it) raised where the unchanged tree does not: the
+        # correspondence could not be evaluated, so the property is no longer shown to hold
         traceback.print_exc()
-        print('HARNESS-ERROR %s: unexpected exception' % a.pid)
-        return 2
+        ctx.unresolved('correspondence run aborted by an unexpected exception',
+                       dict(exception=type(e).__name__, message=str(e)[:500], trace=traceback.format_exc()[-1500:]))
+        ctx.coverage.setdefault('obligations', 0); ctx.coverage.setdefault('discharged', 0); ctx.coverage.setdefault('evaluations', 0)
+        return ctx.finish()
 
 
 def setup():
